@@ -60,4 +60,12 @@ static inline B x_mul(B a, B b){
   if (!b_inf(b) && bval(b) == 0) return mkfin(0);
   if (b_inf(a) || b_inf(b)) return mkinf(((bval(a) > 0) == (bval(b) > 0)) ? 1 : -1);
   return mkfin(ZM_mul(bval(a), bval(b))); }
+/* a / b, b != 0, with the class's convention finite / infinite = 0 */
+static inline B x_div(B a, B b){
+  if (!b_inf(a) && !b_inf(b)) return mkfin(ZM_div(bval(a), bval(b)));
+  if (!b_inf(a)) return mkfin(0);
+  if (!b_inf(b)) return bval(b) > 0 ? a : x_neg(a);
+  return mkinf(((bval(a) > 0) == (bval(b) > 0)) ? 1 : -1); }
+/* floor shift and 2^k on model integers */
+static inline i128 fshr128(i128 v, i128 k){ return k >= 127 ? (v < 0 ? -1 : 0) : (v < 0 ? ~((~v) >> (unsigned)k) : (v >> (unsigned)k)); }
 #endif
